@@ -27,6 +27,16 @@ def main():
     x_c10.mark("setup-done")
     for i, r in enumerate(spec["requests"]):
         x_c10.mark("req-%d" % i)
+        if r["method"] == "_WIPECACHE":
+            # not a request: the cache of a collection disappears (fresh cache / external clean-up), so that
+            # the following readers fill it under the shared lock
+            import shutil
+            x_c10.mark("end")
+            shutil.rmtree(os.path.join(spec["folder"], "collection-root", r["path"].strip("/"), ".Radicale.cache"),
+                          ignore_errors=True)
+            x_c10.mark("setup-done")
+            res.append(dict(status=0, error=None, api=[], files=[], body=""))
+            continue
         data = r.get("data")
         if r.get("use_last_token") and data:
             data = data.replace("@LAST", last_token)
